@@ -46,6 +46,37 @@ fn pal_cands(p: &Palette) -> Vec<[i64; 3]> {
     p.0.iter().map(|c| [c.r() as i64, c.g() as i64, c.b() as i64]).collect()
 }
 
+/// conversions under catch_unwind: a panic becomes a value no specification accepts (index 9999, channel 999)
+mod guarded {
+    use anstyle::{AnsiColor, Ansi256Color, Color, RgbColor};
+    use anstyle_lossy::palette::Palette;
+    use std::panic::{catch_unwind, AssertUnwindSafe};
+    pub fn rgb_to_xterm(c: RgbColor) -> usize {
+        catch_unwind(AssertUnwindSafe(|| anstyle_lossy::rgb_to_xterm(c).0 as usize)).unwrap_or(9999)
+    }
+    pub fn color_to_xterm(c: Color) -> usize {
+        catch_unwind(AssertUnwindSafe(|| anstyle_lossy::color_to_xterm(c).0 as usize)).unwrap_or(9999)
+    }
+    pub fn rgb_to_ansi(c: RgbColor, p: Palette) -> usize {
+        catch_unwind(AssertUnwindSafe(|| super::ansi_index(anstyle_lossy::rgb_to_ansi(c, p)))).unwrap_or(9999)
+    }
+    pub fn xterm_to_ansi(c: Ansi256Color, p: Palette) -> usize {
+        catch_unwind(AssertUnwindSafe(|| super::ansi_index(anstyle_lossy::xterm_to_ansi(c, p)))).unwrap_or(9999)
+    }
+    pub fn color_to_ansi(c: Color, p: Palette) -> usize {
+        catch_unwind(AssertUnwindSafe(|| super::ansi_index(anstyle_lossy::color_to_ansi(c, p)))).unwrap_or(9999)
+    }
+    pub fn xterm_to_rgb(c: Ansi256Color, p: Palette) -> [u32; 3] {
+        catch_unwind(AssertUnwindSafe(|| { let x = anstyle_lossy::xterm_to_rgb(c, p); [x.r() as u32, x.g() as u32, x.b() as u32] })).unwrap_or([999, 999, 999])
+    }
+    pub fn color_to_rgb(c: Color, p: Palette) -> [u32; 3] {
+        catch_unwind(AssertUnwindSafe(|| { let x = anstyle_lossy::color_to_rgb(c, p); [x.r() as u32, x.g() as u32, x.b() as u32] })).unwrap_or([999, 999, 999])
+    }
+    pub fn ansi_to_rgb(c: AnsiColor, p: Palette) -> [u32; 3] {
+        catch_unwind(AssertUnwindSafe(|| { let x = anstyle_lossy::ansi_to_rgb(c, p); [x.r() as u32, x.g() as u32, x.b() as u32] })).unwrap_or([999, 999, 999])
+    }
+}
+
 pub fn palettes(r: &mut Rng, n_random: usize) -> Vec<(String, Palette)> {
     let mut v = vec![("VGA".to_string(), VGA), ("WIN10".to_string(), WIN10_CONSOLE)];
     // duplicates: bright = normal
@@ -76,6 +107,10 @@ pub fn palettes(r: &mut Rng, n_random: usize) -> Vec<(String, Palette)> {
         };
     }
     v.push(("near_vga".into(), Palette(near)));
+    // one repeated entry only (BrightWhite = White), the other bright entries distinct
+    let mut one_dup = VGA.0;
+    one_dup[15] = one_dup[7];
+    v.push(("vga_15eq7".into(), Palette(one_dup)));
     let mut one = VGA.0;
     one[4] = RgbColor(0, 0, 215);
     one[3] = RgbColor(255, 255, 0);
@@ -112,36 +147,36 @@ pub fn record(seed: u64, thorough: bool, shards: usize, prefix: &str) -> Value {
     for (_, p) in &pals {
         let pj = pal_json(p);
         for i in 0..=255u8 {
-            let c = anstyle_lossy::xterm_to_rgb(Ansi256Color(i), *p);
-            emit(json!({"op":"xterm_to_rgb","i":i,"pal":pj,"r":[c.r(), c.g(), c.b()]}));
-            emit(json!({"op":"xterm_to_ansi","i":i,"pal":pj,"r":ansi_index(anstyle_lossy::xterm_to_ansi(Ansi256Color(i), *p))}));
+            let c = guarded::xterm_to_rgb(Ansi256Color(i), *p);
+            emit(json!({"op":"xterm_to_rgb","i":i,"pal":pj,"r":c}));
+            emit(json!({"op":"xterm_to_ansi","i":i,"pal":pj,"r":guarded::xterm_to_ansi(Ansi256Color(i), *p)}));
             let col = Color::Ansi256(Ansi256Color(i));
-            let c = anstyle_lossy::color_to_rgb(col, *p);
-            emit(json!({"op":"color_to_rgb","col":col_json(Some(col)),"pal":pj,"r":[c.r(), c.g(), c.b()]}));
-            emit(json!({"op":"color_to_ansi","col":col_json(Some(col)),"pal":pj,"r":ansi_index(anstyle_lossy::color_to_ansi(col, *p))}));
-            emit(json!({"op":"color_to_xterm","col":col_json(Some(col)),"r":anstyle_lossy::color_to_xterm(col).0}));
+            let c = guarded::color_to_rgb(col, *p);
+            emit(json!({"op":"color_to_rgb","col":col_json(Some(col)),"pal":pj,"r":c}));
+            emit(json!({"op":"color_to_ansi","col":col_json(Some(col)),"pal":pj,"r":guarded::color_to_ansi(col, *p)}));
+            emit(json!({"op":"color_to_xterm","col":col_json(Some(col)),"r":guarded::color_to_xterm(col)}));
         }
         for (k, a) in ANSI.iter().enumerate() {
-            let c = anstyle_lossy::ansi_to_rgb(*a, *p);
+            let c = guarded::ansi_to_rgb(*a, *p);
             let g = p.get(*a);
             let ix = p[*a];
-            emit(json!({"op":"ansi_to_rgb","k":k,"pal":pj,"r":[c.r(), c.g(), c.b()],"get":[g.r(), g.g(), g.b()],"index":[ix.r(), ix.g(), ix.b()]}));
+            emit(json!({"op":"ansi_to_rgb","k":k,"pal":pj,"r":c,"get":[g.r(), g.g(), g.b()],"index":[ix.r(), ix.g(), ix.b()]}));
             let col = Color::Ansi(*a);
-            let c = anstyle_lossy::color_to_rgb(col, *p);
-            emit(json!({"op":"color_to_rgb","col":col_json(Some(col)),"pal":pj,"r":[c.r(), c.g(), c.b()]}));
-            emit(json!({"op":"color_to_ansi","col":col_json(Some(col)),"pal":pj,"r":ansi_index(anstyle_lossy::color_to_ansi(col, *p))}));
-            emit(json!({"op":"color_to_xterm","col":col_json(Some(col)),"r":anstyle_lossy::color_to_xterm(col).0}));
+            let c = guarded::color_to_rgb(col, *p);
+            emit(json!({"op":"color_to_rgb","col":col_json(Some(col)),"pal":pj,"r":c}));
+            emit(json!({"op":"color_to_ansi","col":col_json(Some(col)),"pal":pj,"r":guarded::color_to_ansi(col, *p)}));
+            emit(json!({"op":"color_to_xterm","col":col_json(Some(col)),"r":guarded::color_to_xterm(col)}));
             // exact palette entries map to themselves (lowest duplicate)
-            emit(json!({"op":"rgb_to_ansi","c":[g.r(), g.g(), g.b()],"pal":pj,"r":ansi_index(anstyle_lossy::rgb_to_ansi(g, *p))}));
+            emit(json!({"op":"rgb_to_ansi","c":[g.r(), g.g(), g.b()],"pal":pj,"r":guarded::rgb_to_ansi(g, *p)}));
         }
     }
     // every exact entry of the 256-colour table
     for i in 16..256usize {
         let c = xterm(i);
         let rgb = RgbColor(c[0] as u8, c[1] as u8, c[2] as u8);
-        emit(json!({"op":"rgb_to_xterm","c":c,"r":anstyle_lossy::rgb_to_xterm(rgb).0}));
+        emit(json!({"op":"rgb_to_xterm","c":c,"r":guarded::rgb_to_xterm(rgb)}));
         let col = Color::Rgb(rgb);
-        emit(json!({"op":"color_to_xterm","col":col_json(Some(col)),"r":anstyle_lossy::color_to_xterm(col).0}));
+        emit(json!({"op":"color_to_xterm","col":col_json(Some(col)),"r":guarded::color_to_xterm(col)}));
     }
     // sweep: all 2^24 (thorough) or a 2^18 lattice with a seeded offset (quick)
     let step: usize = if thorough { 1 } else { 4 };
@@ -172,7 +207,7 @@ pub fn record(seed: u64, thorough: bool, shards: usize, prefix: &str) -> Value {
                 let rgb = RgbColor(rr as u8, gg as u8, bb as u8);
                 swept += 1;
                 counter += 1;
-                let got = anstyle_lossy::rgb_to_xterm(rgb).0 as usize;
+                let got = guarded::rgb_to_xterm(rgb);
                 let (want, tie) = nearest(c, &xt, 16);
                 let mut forward = counter % sample_every == 0;
                 if got != want {
@@ -196,7 +231,7 @@ pub fn record(seed: u64, thorough: bool, shards: usize, prefix: &str) -> Value {
                         continue;
                     }
                     let cands = pal_cands(p);
-                    let got = ansi_index(anstyle_lossy::rgb_to_ansi(rgb, *p));
+                    let got = guarded::rgb_to_ansi(rgb, *p);
                     let (want, tie) = nearest(c, &cands, 0);
                     let mut forward = counter % (sample_every * 3) == pi;
                     if got != want {
@@ -225,10 +260,10 @@ pub fn record(seed: u64, thorough: bool, shards: usize, prefix: &str) -> Value {
         let rgb = RgbColor(r.byte(), r.byte(), r.byte());
         let col = Color::Rgb(rgb);
         let (_, p) = &pals[r.below(pals.len())];
-        emit(json!({"op":"color_to_xterm","col":col_json(Some(col)),"r":anstyle_lossy::color_to_xterm(col).0}));
-        emit(json!({"op":"color_to_ansi","col":col_json(Some(col)),"pal":pal_json(p),"r":ansi_index(anstyle_lossy::color_to_ansi(col, *p))}));
-        let c = anstyle_lossy::color_to_rgb(col, *p);
-        emit(json!({"op":"color_to_rgb","col":col_json(Some(col)),"pal":pal_json(p),"r":[c.r(), c.g(), c.b()]}));
+        emit(json!({"op":"color_to_xterm","col":col_json(Some(col)),"r":guarded::color_to_xterm(col)}));
+        emit(json!({"op":"color_to_ansi","col":col_json(Some(col)),"pal":pal_json(p),"r":guarded::color_to_ansi(col, *p)}));
+        let c = guarded::color_to_rgb(col, *p);
+        emit(json!({"op":"color_to_rgb","col":col_json(Some(col)),"pal":pal_json(p),"r":c}));
     }
     for f in files.iter_mut() {
         f.flush().unwrap();
